@@ -17,7 +17,7 @@ EXPECT_ENTERED = ['Envelope.parse', 'Envelope._merge_payloads',
                   'Envelope.flatten', 'Envelope.copy', 'Envelope.encode_7bit']
 BOUNDS = {
     'quick': 'every body of n<=4 arbitrary bytes (NUL, lone CR, leading blank '
-             'or white-space-only lines, dot lines, 8-bit) behind each of 8 '
+             'or white-space-only lines, dot lines, 8-bit) behind each of 10 '
              'well-formed header blocks (single field, folded value, duplicate '
              'names, 8-bit value, LF line ends, Content-Transfer-Encoding '
              'present), separated by CRLF CRLF or LF LF: parse + flatten, '
@@ -27,7 +27,8 @@ BOUNDS = {
              'separators (CRLF CRLF, LF LF: every body of 2 bytes; single '
              'CRLF or none: 1 arbitrary byte appended) - parse/flatten/copy/'
              'pickle never raise; encode_7bit(encoder) on 6 '
-             'concrete UTF-8 bodies x 2 encoders x 3 header blocks',
+             'concrete UTF-8 bodies x 2 encoders x 5 header blocks (Content-'
+             'Transfer-Encoding absent, 8bit, 8BIT, Binary)',
     'thorough': 'n<=6',
 }
 OUTSIDE = ('header-field fidelity and "never raises" for arbitrary (symbolic) '
@@ -53,6 +54,10 @@ HEADERS = [
     b'Content-Transfer-Encoding: 8bit\r\nSubject: x',
     b'X-Empty:\r\nSubject: x',
     b'MIME-Version: 1.0\r\nContent-Type: text/plain; charset="utf-8"',
+    b'Content-Type: text/plain; charset=utf-8\r\n'
+    b'content-transfer-encoding: 8BIT\r\nSubject: x',
+    b'Content-Type: text/plain; charset=utf-8\r\n'
+    b'Content-Transfer-Encoding: Binary',
 ]
 # not well-formed header blocks (weaker claim: nothing raises, the bytes
 # behind the first blank line stay at the end of the flattened message)
@@ -79,7 +84,7 @@ def cells(tier):
     n = 4 if tier == 'quick' else 6
     for h in range(len(HEADERS)):
         for lf in (0, 1):
-            if lf and h in (3, 5, 6):
+            if lf and h in (3, 5, 6, 8, 9):
                 continue
             out.append({'kind': 'body', 'h': h, 'lf': lf,
                         'n': n if h < 2 else n - 1})
@@ -240,7 +245,7 @@ def run_encoder(cell):
     from slimta.envelope import Envelope
     t = api.choice('text', len(TEXTS))
     e = api.choice('encoder', 2)
-    h = [5, 7, 0][api.choice('hdr', 3)]
+    h = [5, 7, 0, 8, 9][api.choice('hdr', 5)]
     text = TEXTS[t]
     enc = [encode_base64, encode_quopri][e]
     env = Envelope('s@z', ['r@x'])
